@@ -120,15 +120,21 @@ func (k Keeper) IterateConsensusStates(
 	for ; iterator.Valid(); iterator.Next() {
 		key := iterator.Key()
 
-		keySplit := strings.Split(string(key), "/")
-		// consensus key is in the format "clients/<chainName>/consensusStates/<height>"
-		if len(keySplit) != 4 || keySplit[2] != string(host.KeyConsensusStatePrefix) {
+		// consensus key is in the format "clients/<chainName>/consensusStates/<height>", <height> being
+		// 16 raw bytes (big-endian revision number and height) which may themselves contain '/'
+		rest, ok := strings.CutPrefix(string(key), string(host.KeyClientStorePrefix)+"/")
+		if !ok {
 			continue
 		}
-		chainName := keySplit[1]
-		//revinum := sdk.BigEndianToUint64(key[35:43])
-		//revihei := sdk.BigEndianToUint64(key[44:])
-		heightBytes := keySplit[3]
+		sep := strings.Index(rest, "/")
+		if sep < 0 {
+			continue
+		}
+		chainName := rest[:sep]
+		heightBytes, ok := strings.CutPrefix(rest[sep+1:], host.KeyConsensusStatePrefix+"/")
+		if !ok || len(heightBytes) != 16 {
+			continue
+		}
 		revisionUint64 := binary.BigEndian.Uint64([]byte(heightBytes[:8]))
 		heightUint64 := binary.BigEndian.Uint64([]byte(heightBytes[8:]))
 		height := types.MustParseHeight(fmt.Sprintf("%d-%d", revisionUint64, heightUint64))
